@@ -152,10 +152,21 @@ pub fn json_str(val: impl fmt::Display) -> impl fmt::Display {
 
     impl fmt::Write for WriteJsonStr<'_, '_> {
         fn write_str(&mut self, mut s: &str) -> fmt::Result {
-            while let Some(idx) = s.find(['"', '\\']) {
+            // Quotation mark, reverse solidus and the control characters
+            // must be escaped (RFC 8259, section 7). All of them are ASCII
+            // so we can treat the character found as a single byte.
+            while let Some(idx) = s.find(|ch: char| {
+                ch == '"' || ch == '\\' || ch < '\u{20}'
+            }) {
                 self.0.write_str(&s[..idx])?;
-                self.0.write_str("\\")?;
-                write!(self.0, "{}", char::from(s.as_bytes()[idx]))?;
+                match s.as_bytes()[idx] {
+                    b'"' => self.0.write_str("\\\"")?,
+                    b'\\' => self.0.write_str("\\\\")?,
+                    b'\n' => self.0.write_str("\\n")?,
+                    b'\r' => self.0.write_str("\\r")?,
+                    b'\t' => self.0.write_str("\\t")?,
+                    ch => write!(self.0, "\\u{:04x}", ch)?,
+                }
                 s = &s[idx + 1..];
             }
             self.0.write_str(s)
